@@ -66,15 +66,6 @@ func errClass(err error) string {
 	return "ERR:" + err.Error()
 }
 
-// orErr is the canonical result of a call that returns (value, error): the value
-// only counts when there is no error.
-func orErr(val string, err error) string {
-	if err == nil {
-		return val
-	}
-	return errClass(err)
-}
-
 func isAbortClass(s string) bool { return s == "TIMEOUT" || s == "LIMIT" }
 
 func canonOne(sb *strings.Builder, m *regexp2.Match) {
@@ -95,15 +86,17 @@ const maxWalk = 3000
 
 type kept struct {
 	m     *regexp2.Match
+	e     error // a returned error: its text must stay the same, too
 	canon string
 }
 
 // canonWalk serialises a match and the whole FindNextMatch chain behind it.
-func canonWalk(re *regexp2.Regexp, m *regexp2.Match, err error, keep *[]kept) string {
+func canonWalk(re *regexp2.Regexp, m *regexp2.Match, err error, keep *[]kept, keepMatches bool) string {
 	var sb strings.Builder
 	walk := 0
 	for {
 		if err != nil {
+			noteErr(keep, err)
 			sb.WriteString(errClass(err))
 			return sb.String()
 		}
@@ -113,8 +106,8 @@ func canonWalk(re *regexp2.Regexp, m *regexp2.Match, err error, keep *[]kept) st
 		}
 		a := sb.Len()
 		canonOne(&sb, m)
-		if keep != nil && len(*keep) < 6 {
-			*keep = append(*keep, kept{m, sb.String()[a:]})
+		if keep != nil && keepMatches && len(*keep) < 6 {
+			*keep = append(*keep, kept{m: m, canon: sb.String()[a:]})
 		}
 		sb.WriteString("|")
 		walk++
@@ -141,7 +134,22 @@ func (s *strReader) ReadRune() (rune, int, error) {
 }
 
 // execOp performs one public-API operation and returns its canonical result.
+// noteErr retains an error a call returned, with its text at that moment.
+func noteErr(keep *[]kept, err error) {
+	if keep != nil && err != nil && len(*keep) < 12 {
+		*keep = append(*keep, kept{e: err, canon: err.Error()})
+	}
+}
+
 func execOp(re *regexp2.Regexp, op *Op, keep *[]kept) (out string) {
+	keepMatches := op.Keep
+	orErr := func(val string, err error) string {
+		noteErr(keep, err)
+		if err == nil {
+			return val
+		}
+		return errClass(err)
+	}
 	defer func() {
 		if r := recover(); r != nil {
 			if vsim.IsAbort(r) {
@@ -168,13 +176,13 @@ func execOp(re *regexp2.Regexp, op *Op, keep *[]kept) (out string) {
 		return orErr(fmt.Sprint(ok), err)
 	case OpFindString:
 		m, err := re.FindStringMatch(in)
-		return canonWalk(re, m, err, keep)
+		return canonWalk(re, m, err, keep, keepMatches)
 	case OpFindRunes:
 		m, err := re.FindRunesMatch([]rune(in))
-		return canonWalk(re, m, err, keep)
+		return canonWalk(re, m, err, keep, keepMatches)
 	case OpFindStringAt:
 		m, err := re.FindStringMatchStartingAt(in, op.StartAt)
-		return canonWalk(re, m, err, keep)
+		return canonWalk(re, m, err, keep, keepMatches)
 	case OpFindRunesAt:
 		r := []rune(in)
 		at := op.StartAt
@@ -182,7 +190,7 @@ func execOp(re *regexp2.Regexp, op *Op, keep *[]kept) (out string) {
 			at = len(r)
 		}
 		m, err := re.FindRunesMatchStartingAt(r, at)
-		return canonWalk(re, m, err, keep)
+		return canonWalk(re, m, err, keep, keepMatches)
 	case OpFindAllString:
 		r, err := re.FindAllStringIndex(in, op.N)
 		return orErr(fmt.Sprint(r), err)
